@@ -321,6 +321,6 @@ Example refine_premises_satisfiable :
   (forall k iv d, good_key k = true -> length iv = 16 -> length d mod 16 = 0 -> cbc_enc_bytes toyE k iv d = cbc_enc_bytes toyE k iv d).
 Proof.
   repeat split; try (intros; apply toy_cipher_ok; assumption).
-  intros k n c a p. unfold toy_open16. destruct (Nat.ltb_spec (length c) 16); [discriminate|].
-  intros H. inversion H. rewrite firstn_length. lia.
+  intros k n c a p. unfold toy_open16. destruct (Nat.ltb_spec (length c) 16) as [Hlt|Hge]; [discriminate|].
+  intros Hs. inversion Hs. rewrite firstn_length. lia.
 Qed.
